@@ -494,10 +494,14 @@ def cli_widths(res):
                 for ext in ('.p8', '.p8.png'):
                     n += 1
                     path = os.path.join(d, 'c%d%s' % (n, ext))
-                    p8file.to_file(carts.make_game({}, version=33, code_lines=[base]), path)
                     args = ['luafmt'] + ([] if w is None else ['--indentwidth', str(w)]) + [path]
                     res.evaluations += 1
                     case = {'src': base, 'width': w, 'variant': 'cli'}
+                    try:
+                        p8file.to_file(carts.make_game({}, version=33, code_lines=[base]), path)
+                    except Exception as e:
+                        res.violation('C10|cli|input-cart-raise|%s' % type(e).__name__, 'the valid program %r cannot be saved as a cart: %r' % (base, e), case)
+                        continue
                     try:
                         rc_ = tool.main(args)
                         out = b''.join(p8file.from_file(os.path.join(d, 'c%d_fmt%s' % (n, ext))).lua.to_lines())
